@@ -216,9 +216,10 @@ def configs(thorough):
         for fault in ('defunct', 'close', 'garbage', 'proto'):
             out.append(({'pre': [R, R], 'faults': [fault], 'sends': [R]}, 2))
             out.append(({'pre': [R, X, R, R], 'faults': [fault], 'sends': [R], 'threshold': 2}, 1))
-            out.append(({'pre': [R], 'faults': [fault], 'sends': [R, X]}, 2))
-            out.append(({'pre': [R, R], 'faults': [fault, 'close'], 'sends': [R]}, 2 if fault in ('defunct', 'close') else 1))
-        out.append(({'pre': [], 'faults': ['defunct'], 'sends': [R, R]}, 2))
+            out.append(({'pre': [R], 'faults': [fault], 'sends': [R, X]}, 1))
+            if fault != 'defunct':
+                out.append(({'pre': [R, R], 'faults': [fault, 'close'], 'sends': [R]}, 1))
+        out.append(({'pre': [R], 'faults': ['defunct'], 'sends': [R, X]}, 2))      # three threads, two preemptions
         out.append(({'pre': [], 'faults': ['close'], 'sends': [R]}, 3))
     return out
 
